@@ -19,9 +19,25 @@ SPEC = {
     ],
     "assumptions": [
         "msb_ignore <= 63 (the quantifier of C11; >= 64 overflows the Rust shift and is not generated)",
-        "random pivot/index of the port functions is an oracle: observed outputs are checked with acceptors proved sound and complete",
+        "random pivot/index of the port functions is an oracle: observed outputs are checked with acceptors proved sound (accept_iter, accept_draw) and, for the iterator, complete (accept_iter_complete)",
     ],
 }
+
+def _post(lines, verdicts):
+    """per-kind floors: every case kind must really have been exercised"""
+    out = []
+    if len(lines) >= 100000:
+        kinds = {}
+        for ln in lines:
+            kinds[ln[:1]] = kinds.get(ln[:1], 0) + 1
+        for k in "SIDPR":
+            if kinds.get(k, 0) < len(lines) // 100:
+                out.append(("diff", f"{k} (floor)", f"diff coverage-floor kind {k}: {kinds.get(k, 0)} cases < 1% of {len(lines)}"))
+    return out
+
+
+SPEC["post"] = _post
+
 
 def main(argv):
     return run_check(SPEC, argv)
